@@ -154,6 +154,8 @@ def enumerate_cases(tier, seed):
     """live tier: real sockets and real TLS (what the in-process driver cannot see, e.g. descriptor-level shortcuts)"""
     yield {"mode": "live", "servertype": "ThreadingTCPServer"}
     yield {"mode": "live", "servertype": "ForkingTCPServer"}
+    # the same with the server logging to its standard output through a strictly encoding stream (an ordinary UTF-8 locale)
+    yield {"mode": "live", "servertype": "ThreadingTCPServer", "log": "file-strict"}
 
 
 def _check_live(case, ctx):
@@ -166,16 +168,29 @@ def _check_live(case, ctx):
     for sz in LIVE_SIZES:
         files["f%d.bin" % sz] = _content("allbytes", sz, sz)
         files["t%d.txt" % sz] = _content("text", sz, sz)
+    # names that are not UTF-8 (they travel through selector, log line and reply alike)
+    files["caf\xe9 \xff.txt"] = _content("text", 700, 700)
+    files["\xae.bin"] = _content("allbytes", 5000, 5000)
     world.materialise([[n, "f", world.u(c)] for n, c in files.items()], root)
     srv = None
     fails = []
     try:
-        srv = live.Server(live.write_conf(os.path.join(base, "s.conf"), root, "full", case["servertype"], cachetime=0))
+        conf = live.write_conf(os.path.join(base, "s.conf"), root, "full", case["servertype"], cachetime=0)
+        if case.get("log") == "file-strict":
+            import configparser
+            cp = configparser.ConfigParser()
+            cp.read(conf)
+            cp.set("logger", "logmethod", "file")
+            with open(conf, "w") as f:
+                cp.write(f)
+            srv = live.Server(conf, capture_log=True, env={"PYTHONIOENCODING": "utf-8:strict"})
+        else:
+            srv = live.Server(conf)
         for n, data in sorted(files.items()):
             for form in LIVE_FORMS:
                 tls, fam = clients.FORMS[form]
                 try:
-                    got = live.request(srv.port, clients.encode(form, b"/" + n.encode()), tls, timeout=30)
+                    got = live.request(srv.port, clients.encode(form, b"/" + world.b(n)), tls, timeout=30)
                 except Exception as e:
                     got = e
                 ctx.evaluations += 1
